@@ -23,13 +23,14 @@ worker() {
     git -C $C checkout -q -- . ; git -C $C clean -fdq
     runs=$(grep -o "^func Test[A-Za-z0-9_]*" $t | sed 's/func //' | paste -sd'|')
     pk=pkg/ggql; grep -q "^package main" $t && pk=cmd/ggqlgen
+    race=""; grep -q -- "-race" $d/meta.json $t 2>/dev/null && race="-race"
     cp $t $C/$pk/zz_confirm_test.go
-    a=$( cd $C/$pk && timeout 900 go test -vet=off -count=1 -run "^($runs)\$" . >/dev/null 2>&1; echo $? )
+    a=$( cd $C/$pk && timeout 900 go test $race -vet=off -count=1 -run "^($runs)\$" . >/dev/null 2>&1; echo $? )
     rm -f $C/$pk/zz_confirm_test.go
     if ! git -C $C apply $d/patch.diff 2>/dev/null; then echo "$id NOAPPLY"; continue; fi
     bld=$( cd $C && go build ./... >/dev/null 2>&1; echo $? )
     cp $t $C/$pk/zz_confirm_test.go
-    b=$( cd $C/$pk && timeout 900 go test -vet=off -count=1 -run "^($runs)\$" . >/dev/null 2>&1; echo $? )
+    b=$( cd $C/$pk && timeout 900 go test $race -vet=off -count=1 -run "^($runs)\$" . >/dev/null 2>&1; echo $? )
     rm -f $C/$pk/zz_confirm_test.go
     case $id in
       seeded/*) if [ $a = 0 ] && [ $bld = 0 ] && [ $b != 0 ]; then v=ok; else v=STALE; fi;;
